@@ -1041,37 +1041,42 @@ def expected_py(t, v):
     return to_py(t, v)
 
 
-def relax(rng, t, v):
-    """A relaxed spelling of the explicit object (positional structures, bare value for single-field structures)."""
+def relax(rng, t, v, used=None):
+    """A relaxed spelling of the explicit object (positional structures, bare value for single-field structures).
+    `used` (a list) receives a mark whenever a spelling is chosen that the strict mode must reject."""
+    if used is None:
+        used = []
     if v is None:
         raise ValueError
     k = t[0]
     if k == "delim":
-        return relax(rng, t[1], v)
+        return relax(rng, t[1], v, used)
     if k in ("fix", "var"):
         if v[0] != "L":
             return to_py(t, v)
-        items = [relax(rng, t[1], x) for x in v[1]]
+        items = [relax(rng, t[1], x, used) for x in v[1]]
         return tuple(items) if rng.random() < 0.3 else items
     if k == "union":
         if v[1] < 0:
             return to_py(t, v)
-        return {t[2][v[1]][0]: relax(rng, t[2][v[1]][1], v[2])}
+        return {t[2][v[1]][0]: relax(rng, t[2][v[1]][1], v[2], used)}
     if k == "struct":
         nf = named_fields(t)
         vals = v[1]
         r = rng.random()
         if len(nf) == 1 and vals[0] is not None and r < 0.6:
-            inner = relax(rng, nf[0][1], vals[0])
+            inner = relax(rng, nf[0][1], vals[0], used)
             if not isinstance(inner, dict) or (inner and nf[0][0] not in inner):
+                used.append("bare")
                 return inner
             return {nf[0][0]: inner}
         if len(nf) >= 2 and r < 0.6:
             last = max([i for i, x in enumerate(vals) if x is not None], default=-1)
             if all(x is not None for x in vals[:last + 1]):
-                items = [relax(rng, ft, x) for (_, ft), x in zip(nf[:last + 1], vals)]
+                items = [relax(rng, ft, x, used) for (_, ft), x in zip(nf[:last + 1], vals)]
+                used.append("positional")
                 return tuple(items) if rng.random() < 0.3 else items
-        return {n: relax(rng, ft, x) for (n, ft), x in zip(nf, vals) if x is not None}
+        return {n: relax(rng, ft, x, used) for (n, ft), x in zip(nf, vals) if x is not None}
     return to_py(t, v)
 
 
@@ -1196,9 +1201,17 @@ def run_impl(cases):
         if lp:
             fails.append(lp)
         try:
-            rel = relax(_random.Random(case.get("relax", 0)), t, v)
+            used = []
+            rel = relax(_random.Random(case.get("relax", 0)), t, v, used)
             if p.serialize(schema, rel, with_delimiter_header=hdr, relaxed=True) != bs:
                 fails.append("relaxed input form encodes differently")
+            if used:
+                # the relaxed spellings are accepted only on request: by default (relaxed omitted or False) they are rejected
+                try:
+                    p.serialize(schema, rel, with_delimiter_header=hdr)
+                    fails.append("a positional / bare structure value is accepted although relaxed=True was not given")
+                except (ValueError, TypeError):
+                    pass
             if p.serialize(schema, obj, with_delimiter_header=hdr, relaxed=True) != bs:
                 fails.append("relaxed=True changes the encoding of the explicit form")
         except Exception as ex:  # pylint: disable=broad-except
